@@ -161,6 +161,7 @@ def _judge_batch(w: World, sent_doc: Any, reply_text: Any, strict: bool, outcome
     ctx['verdict'] = v
     if v == 'open':
         _check_null_id_error_not_lost(w, sent_doc, reply_text, strict, outcome, via, ctx)
+        _check_related_in_open_zone(w, outcome, reqs, via, ctx)
         return
     if v in ('decode', 'deser', 'identity'):
         if outcome[0] != 'raise' or not _verdict_matches(v, _classify(outcome[1])):
@@ -185,6 +186,30 @@ def _judge_batch(w: World, sent_doc: Any, reply_text: Any, strict: bool, outcome
                       f'{_describe(outcome)}', **ctx)
         return
     _check_accepted(w, exp, outcome, reqs, via, ctx)
+
+
+def _check_related_in_open_zone(w: World, outcome: Tuple[Any, ...], reqs: List[Any], via: str, ctx: Dict[str, Any]) -> None:
+    """Open zone (non-strict mismatches), narrowed: whatever else a lenient client does with an incomplete or padded
+    reply, a response it hands out is linked to the request with the same id - never to another one."""
+    if via != 'send' or outcome[0] != 'value' or not isinstance(outcome[1], pjrpc.BatchResponse):
+        return
+    resp = outcome[1]
+    if resp.is_error:
+        return
+    ids = [r.id for r in resp]
+    if len({json.dumps(i) for i in ids}) != len(ids):
+        return    # the same id twice in the reply: which of the two is "the" response is open
+    w.probe('open_zone.related_checked')
+    for r in resp:
+        want = next((q for q in reqs if RC.same_id(q.id, r.id)), None)
+        rel = r.related
+        if want is not None and rel is not want:
+            w.violate('C08.related', f'response {r.id!r} is related to {rel!r} instead of the request with the same id '
+                      f'(non-strict client, reply with gaps or strangers)', **ctx)
+            return
+        if want is None and rel is not None and r.id is not None:
+            w.violate('C08.related', f'response {r.id!r} answers no call but is related to {rel!r}', **ctx)
+            return
 
 
 def _check_null_id_error_not_lost(w: World, sent_doc: Any, reply_text: Any, strict: bool, outcome: Tuple[Any, ...],
